@@ -1,4 +1,5 @@
 import CashewsVerif.Lemmas.ClientSideOutage
+import CashewsVerif.Lemmas.ClientSidePrefix
 /-
 C20 — the client-side cache agrees with the server once invalidations are delivered.
 
@@ -195,6 +196,22 @@ theorem agreement_across_outage (isEnc : String → Bool) (i : Nat) (pre : List 
     (CS.step st (.getMany j ks)).2 = .vals (ks.map (srvValue st)) :=
   reads_equal_server isEnc _ hwf j k ks
 
+/-- **The key prefix is transparent, for every prefix and EVERY key.**  The model above is written over the caller's keys; on
+the wire each key carries the configured `client_side_prefix` (`_add_prefix`), and every key that comes back — an
+invalidation announcement, a key of a SCAN page, a key of `get_many`'s miss dictionary — is mapped back by `_remove_prefix`
+(`key[len(prefix):]`, strip exactly one leading prefix).  (1) `_remove_prefix(_add_prefix(k)) = k` for every prefix `p` and
+every key `k` — also when `k` contains the prefix text again further in, equals the prefix, is a fragment of it, or is empty;
+(2) prefixing is injective, so the server's keyspace is a faithful renaming of the model's (no two keys collide);
+(3) a whole list of keys (a SCAN page, an announcement) comes back as it went; (4) the listener processing an announcement AS
+IT ARRIVES ON THE WIRE does to the local copy and the echo marks exactly what the model's `applyMsg` does with the model's
+announcement — the invalidation reaches the local entry of the very key that changed. -/
+theorem prefix_transparent (p : String) :
+    (∀ k, removePrefix p (addPrefix p k) = k) ∧
+    (∀ k k', addPrefix p k = addPrefix p k' → k = k') ∧
+    (∀ ks : List String, (ks.map (addPrefix p)).map (removePrefix p) = ks) ∧
+    (∀ (c : Client) (now : Nat) (m : Msg), c.applyWire p now (wireMsg p m) = c.applyMsg now m) :=
+  ⟨removePrefix_addPrefix p, fun _ _ h => addPrefix_injective p h, map_removePrefix_addPrefix p, applyWire_wireMsg p⟩
+
 /-! ### Non-vacuity -/
 
 def dec : String → Bool := fun _ => true
@@ -317,6 +334,23 @@ example :
       (before.cl 0).loc "zz" = some ⟨.absent, none⟩ ∧ srvValue before "zz" = some (.obj "cc")) ∧
     (let after := (CS.qrun (St.init dec) (sampleHist5.take 12)).1
      (after.cl 0).started = true ∧ (after.cl 0).loc "k" = none ∧ (after.cl 0).loc "zz" = none) := by decide +kernel
+
+/-- keys that contain the prefix text again: one leading prefix is stripped, the rest of the key is left alone — whereas
+removing the prefix text everywhere (`key.replace(prefix, "")`), which agrees on ordinary keys, maps the announcement of
+`copy-of:cashews:page` to another key, and under the short prefix `c:` mangles the ordinary key `doc:7` -/
+example :
+    removePrefix "cashews:" (addPrefix "cashews:" "copy-of:cashews:page") = "copy-of:cashews:page" ∧
+    removePrefix "c:" (addPrefix "c:" "doc:7") = "doc:7" ∧ removePrefix "c:" (addPrefix "c:" "c:") = "c:" ∧
+    removePrefix "c:" (addPrefix "c:" "") = "" ∧ removePrefix "cashews:" (addPrefix "cashews:" "cash") = "cash" ∧
+    stripEverywhere "cashews:" (addPrefix "cashews:" "page:home") = "page:home" ∧
+    stripEverywhere "cashews:" (addPrefix "cashews:" "copy-of:cashews:page") = "copy-of:page" ∧
+    stripEverywhere "c:" (addPrefix "c:" "doc:7") = "do7" := by decide +kernel
+
+/-- the listener on the wire: client 0 holds `doc:7` (prefix `c:`); the announcement `c:doc:7` removes exactly that entry -/
+example :
+    let c : Client := (Client.init.lset 0 "doc:7" (.val (.int 1)) none).lset 0 "do7" (.val (.int 2)) none
+    ((c.applyWire "c:" 0 (wireMsg "c:" (.keys ["doc:7"]))).loc "doc:7" = none) ∧
+    ((c.applyWire "c:" 0 (wireMsg "c:" (.keys ["doc:7"]))).loc "do7" = some ⟨.val (.int 2), none⟩) := by decide +kernel
 
 /-- a rejected conditional write exists (the premise of `rejected_conditional_never_readable` is reachable) -/
 example : (CS.step (CS.qrun (St.init dec) [.set 0 "k" (.int 1) none .always]).1 (.set 1 "k" (.int 2) none .nx)).2 = .bool false := by
